@@ -108,14 +108,20 @@ Definition upd_probs (d : bdec) : list (list (list (list Z))) * bdec :=
       (combine u3 o3))
     (combine coeff_update_probs coeff_probs0) d.
 
-(** header fields of the first partition, in order (19.2) *)
-Definition parse_part1_hdr (abs_default : bool) (w h xs ys : Z) (d : bdec) : frame_hdr * bdec :=
+(** header fields of the first partition, in order (19.2); the part before the
+    probability updates first *)
+Definition parse_fixed_hdr (abs_default : bool) (d : bdec)
+  : (bool * bool * seg_hdr * lf_hdr * Z * q_hdr) * bdec :=
   let '(cs, d) := read_flag d in
   let '(ct, d) := read_flag d in
   let '(sg, d) := parse_seg_hdr abs_default d in
   let '(lf, d) := parse_lf_hdr d in
   let '(lp, d) := read_lit 2 d in
   let '(q, d) := parse_q_hdr d in
+  ((cs, ct, sg, lf, lp, q), d).
+
+Definition parse_part1_hdr (abs_default : bool) (w h xs ys : Z) (d : bdec) : frame_hdr * bdec :=
+  let '((cs, ct, sg, lf, lp, q), d) := parse_fixed_hdr abs_default d in
   let '(_, d) := read_flag d in            (* refresh_entropy_probs *)
   let '(pr, d) := upd_probs d in
   let '(sk, d) := read_flag d in
